@@ -102,10 +102,42 @@ def shards(tier):
     return 16
 
 
-def fault_source(key, fault):
-    """source text of the base module with one fault"""
+PARAM_LINES = ['    params.add("E", value=3e3, min=0)\n',
+               '    params.add("R", value=10e-6, min=0, vary=False)\n',
+               '    params.add("nu", value=.5, min=0, max=0.5, vary=False)\n',
+               '    params.add("contact_point", value=0)\n',
+               '    params.add("baseline", value=0)\n']
+SIGNATURES = ["delta, E, R, nu, contact_point=0, baseline=0",
+              "delta, R, E, nu, contact_point=0, baseline=0",
+              "delta, E, nu, R, contact_point=0, baseline=0",
+              "delta, E, R, nu, baseline=0, contact_point=0",
+              "delta, nu, R, E, baseline=0, contact_point=0"]
+
+
+def fault_source(key, fault, rng=None):
+    """source text of the base module with one fault; with `rng` the module
+    additionally carries a legal oddity (model function whose argument order
+    differs from parameter_keys: warned about, not rejected) and the permuting
+    faults hit a random pair of positions"""
     src = BASE_SRC.replace("KEY", key)
     kind, attr = fault
+    if rng is not None:
+        sig = SIGNATURES[int(rng.integers(len(SIGNATURES)))]
+        src = src.replace("delta, E, R, nu, contact_point=0, baseline=0", sig)
+        if kind == "permute":
+            i, j = sorted(rng.choice(5, 2, replace=False).tolist())
+            if attr == "parameter_keys":
+                keys = ['E', 'R', 'nu', 'contact_point', 'baseline']
+                keys[i], keys[j] = keys[j], keys[i]
+                return src + "\nparameter_keys = %r\n" % keys
+            lines = list(PARAM_LINES)
+            lines[i], lines[j] = lines[j], lines[i]
+            assert "".join(PARAM_LINES) in src
+            return src.replace("".join(PARAM_LINES), "".join(lines))
+        if kind == "duplicate":
+            i, j = rng.choice(5, 2, replace=False).tolist()
+            return src + "\nparameter_names = list(parameter_names)\n" \
+                "parameter_names[%d] = parameter_names[%d]\n" % (i, j)
     if kind == "delete":
         if attr == "get_parameter_defaults":
             src = src.replace("def get_parameter_defaults():",
@@ -158,14 +190,19 @@ def check_faulty(rec, rng, cid, tmpdir, counter):
                 key = existing[int(rng.integers(len(existing)))]
                 as_file = bool(rng.integers(2))
                 rec.event("faulty modules offered under an existing key")
-            src = fault_source(key, fault)
+            odd = bool(rng.random() < .5)
+            src = fault_source(key, fault, rng if odd else None)
+            if odd:
+                rec.event("faulty modules with permuted argument order / "
+                          "random fault position")
             case = {"id": cid, "kind": "faulty-module", "fault": list(fault),
-                    "as_file": as_file}
+                    "as_file": as_file, "source": src if odd else "base"}
             before = registry_state()
             saved = dict(model.models_available)
             path_before = list(sys.path)
             rec.event("faulty modules offered")
-            rec.evaluated(dg=("fault", fault, as_file))
+            rec.evaluated(dg=("fault", fault, as_file,
+                              core.digest(src.replace(key, "KEY"))))
             try:
                 if as_file:
                     f = pathlib.Path(tmpdir) / ("f%d_%s.py" % (counter[0],
